@@ -3,21 +3,22 @@
 # Confirms a seeded change (scripts/confirm_seed.sh) and, if confirmed, stores it under /verif/seeded/<id>/<variant>/.
 id=$1; k=$2; pkg=$3; rx=$4; caught=$5; shift 5
 V=$(cd "$(dirname "$0")/.." && pwd)
-src=/tmp/seed-out-$id/$k
+PFX=${SEED_OUT_PREFIX:-/tmp/seed-out-}
+src=$PFX$id/$k
 res=$("$V/scripts/confirm_seed.sh" "$src" "$pkg" "$rx" "$@" | head -1)
 echo "$id/$k: $res"
-python3 - "$id" "$k" "$res" "$caught" "$pkg" "$rx" <<'PY'
+python3 - "$id" "$k" "$res" "$caught" "$pkg" "$rx" "$PFX" <<'PY'
 import json,sys,os,shutil,glob
-id,k,res,caught,pkg,rx=sys.argv[1:7]
+id,k,res,caught,pkg,rx,pfx=sys.argv[1:8]
 r=json.loads(res)
 ok=r.get("applies") and r["demo_on_clean_head_rc"]==0 and r["build_with_patch_rc"]==0 and r["existing_tests_of_touched_packages_rc"]==0 and r["demo_with_patch_rc"]!=0
 if not ok:
     print("NOT CONFIRMED - not stored"); sys.exit(1)
 d='/verif/seeded/%s/%s'%(id,k); os.makedirs(d,exist_ok=True)
-shutil.copy('/tmp/seed-out-%s/%s/patch.diff'%(id,k),d)
-for f in glob.glob('/tmp/seed-out-%s/%s/demo*'%(id,k)):
+shutil.copy('%s%s/%s/patch.diff'%(pfx,id,k),d)
+for f in glob.glob('%s%s/%s/demo*'%(pfx,id,k)):
     if os.path.isfile(f): shutil.copy(f,d)
-src=json.load(open('/tmp/seed-out-%s/%s/meta.json'%(id,k)))
+src=json.load(open('%s%s/%s/meta.json'%(pfx,id,k)))
 m={"property":id,"variant":k,"what_it_breaks":src.get("what_it_breaks"),"needs_to_manifest":src.get("needs_to_manifest"),"files_changed":src.get("files_changed"),
    "author":"independent sub-agent given only the property text and a scratch worktree of /repo",
    "how_to_run_demo":"copy the demo test into %s/ of a worktree and run: go test -count=1 -run %s ./%s/ (fails with patch.diff applied, passes without)"%(pkg,rx,pkg),
